@@ -105,55 +105,76 @@ fn node(w: &World, depth: usize, trace: Val, nearest: Val) {
     assert!(same_view(&w.ctxt.view(), &before), "when a span ends the ambient ids revert to its parent's");
 }
 
-fn run_tree(depth: usize, incoming: u8) {
+/// ONE INDUCTIVE STEP of the trace tree (whole trees do not fit CBMC's memory: every id -> Value
+/// conversion walks value-bag's primitive type table, times the number of paths; measured: a
+/// two-span chain runs out of 14 GB). From an ARBITRARY ambient state (no ids, or any trace id / span
+/// id / parent id), creating one span with a symbolic filter verdict and running it inside its frame:
+///  * enabled: inside the frame the ambient ids are (ambient trace id or else a fresh one, the new span
+///    id, parent = the ambient span id); the event emitted inside and the span's own event carry them;
+///  * rejected: the frame adds nothing (children attach to the nearest enabled ancestor), no span event;
+///  * afterwards the ambient ids are exactly what they were.
+/// With C03's frame discipline (views nest and restore) this step composes to trees of any depth.
+fn span_step(with_event: bool) {
     let ctxt = ArrCtxt::new();
     let em = TreeEmitter::new();
     let clock = SeqClock { readings: [None; 4], calls: Cell::new(0) };
     let rng = CountRng::new(100);
     let w = World { ctxt: &ctxt, em: &em, clock: &clock, rng: &rng, spans: Cell::new(0), enabled_spans: Cell::new(0) };
-    match incoming {
-        0 => node(&w, depth, Val::None, Val::None),
-        1 => {
-            // incoming ids placed in the context as typed values
-            let t = TraceId::from_u128(7).unwrap();
-            let s = SpanId::from_u64(9).unwrap();
-            SpanCtxt::new(Some(t), None, Some(s)).push(&ctxt).call(|| node(&w, depth, Val::Trace(7), Val::Span(9)));
-        }
-        _ => {
-            // incoming ids as hex text properties
-            Frame::push(&ctxt, [("trace_id", "00000000000000000000000000000007"), ("span_id", "0000000000000009")])
-                .call(|| node(&w, depth, Val::Trace(7), Val::Span(9)));
-        }
+    // arbitrary ambient ids
+    let has: bool = kani::any();
+    let t: u128 = kani::any();
+    let sp: u64 = kani::any();
+    let has_parent: bool = kani::any();
+    let pp: u64 = kani::any();
+    kani::assume(t != 0 && sp != 0 && pp != 0 && sp != 100 && sp != 101);
+    if has {
+        *ctxt.cur.borrow_mut() = ArrProps { a: None, b: None, trace: TraceId::from_u128(t), span: SpanId::from_u64(sp),
+            parent: if has_parent { SpanId::from_u64(pp) } else { None } };
     }
-    assert!(same_view(&ctxt.view(), &[Val::None; 6]));
-    // ids are taken from the counter rng: non-zero and pairwise distinct by construction of the rng;
-    // the number of draws is bounded by two per span
-    assert!(rng.next.get() - 100 <= 2 * w.spans.get() as u64);
-    kani::cover!(w.spans.get() >= 3 && w.enabled_spans.get() >= 2, "three spans, two enabled");
-    kani::cover!(w.spans.get() >= 2 && w.enabled_spans.get() == 1, "opt:a rejected span among enabled ones");
+    let before = ctxt.view();
+    let (amb_trace, amb_span) = if has { (Val::Trace(t), Val::Span(sp)) } else { (Val::None, Val::None) };
+    let verdict: bool = kani::any();
+    let (mut guard, frame) = SpanGuard::new(RecFilter::new(verdict), &ctxt, &clock, &rng, completion::default(&em, &ctxt), Empty, Path::new_raw("m"), "s", Empty);
+    let (my_trace, my_span) = if has { (Val::Trace(t), Val::Span(100)) } else { (Val::Trace(100), Val::Span(101)) };
+    assert!(same_view(&ctxt.view(), &before), "creating a span does not change what is ambient");
+    frame.call(|| {
+        guard.start();
+        let v = ctxt.view();
+        if verdict {
+            assert!(v[K_TRACE] == my_trace && v[K_SPAN] == my_span && v[K_PARENT] == amb_span, "enabled span: (trace, new span id, parent = enclosing span)");
+        } else {
+            assert!(same_view(&v, &before), "a rejected span contributes no ids");
+        }
+        if with_event {
+            let (et, es) = if verdict { (my_trace, my_span) } else { (amb_trace, amb_span) };
+            emit_event(&w, et, es);
+        }
+        em.want_trace.set(my_trace); em.want_span.set(my_span); em.want_parent.set(amb_span); em.check_parent.set(true);
+        let n = em.calls.get();
+        drop(guard);
+        assert!(em.calls.get() == n + if verdict { 1 } else { 0 }, "a rejected span emits nothing");
+    });
+    assert!(same_view(&ctxt.view(), &before), "when the span ends the ambient ids revert");
+    kani::cover!(has && verdict, "child span of an ambient trace");
+    kani::cover!(!has && verdict, "root span of a fresh trace");
+    kani::cover!(has && !verdict, "rejected span inside a trace");
 }
 
 #[kani::proof]
 #[kani::unwind(13)]
 #[kani::stub(emit::span::TraceId::try_from_hex, trace_hex_unreachable)]
 #[kani::stub(emit::span::SpanId::try_from_hex, span_hex_unreachable)]
-pub fn c04_q_span_tree_depth1_fresh() { run_tree(1, 0); }
+#[kani::stub(<u128 as emit_core::value::FromValue>::from_value, u128_from_value_unreachable)]
+#[kani::stub(<u64 as emit_core::value::FromValue>::from_value, u64_from_value_unreachable)]
+pub fn c04_q_span_step_plain() { span_step(false); }
 
 #[kani::proof]
 #[kani::unwind(13)]
 #[kani::stub(emit::span::TraceId::try_from_hex, trace_hex_unreachable)]
 #[kani::stub(emit::span::SpanId::try_from_hex, span_hex_unreachable)]
-pub fn c04_q_span_tree_depth1_incoming_typed() { run_tree(1, 1); }
-
-#[kani::proof]
-#[kani::unwind(34)]
-pub fn c04_t_span_tree_depth1_incoming_text() { run_tree(1, 2); }
-
-#[kani::proof]
-#[kani::unwind(13)]
-#[kani::stub(emit::span::TraceId::try_from_hex, trace_hex_unreachable)]
-#[kani::stub(emit::span::SpanId::try_from_hex, span_hex_unreachable)]
-pub fn c04_t_span_tree_depth2_fresh() { run_tree(2, 0); }
+#[kani::stub(<u128 as emit_core::value::FromValue>::from_value, u128_from_value_unreachable)]
+#[kani::stub(<u64 as emit_core::value::FromValue>::from_value, u64_from_value_unreachable)]
+pub fn c04_t_span_step_with_event() { span_step(true); }
 
 /// ids drawn for new spans: non-zero, child keeps the trace id, parent link = creator's span id.
 #[kani::proof]
